@@ -122,7 +122,55 @@ func genSrc(t *rapid.T, thorough bool) (Src, *protogen.Workspace) {
 		cfg.MaxFiles, cfg.MaxPackages = 8, 5
 	}
 	ws := protogen.GenWorkspace(t, cfg)
+	addLegacyNested(t, ws)
 	return srcOf(ws), ws
+}
+
+// addLegacyNested gives some proto2 files a NESTED message that uses the legacy MessageSet wire format
+// (`option message_set_wire_format = true;` + an extension range, no fields) inside a parent that has
+// no legacy feature itself: an option the Go runtime cannot link, which buf therefore strips from the
+// copies it builds its resolvers from. The image itself must keep it through every read and write.
+func addLegacyNested(t *rapid.T, ws *protogen.Workspace) {
+	for _, f := range ws.AllFiles() {
+		if f.Syntax != protogen.Proto2 && f.Syntax != protogen.SyntaxUnspecified {
+			continue
+		}
+		if len(f.Messages) == 0 || f.Package == "options.v1" || rapid.IntRange(0, 2).Draw(t, "legacy-nested") != 0 {
+			continue
+		}
+		parent := f.Messages[rapid.IntRange(0, len(f.Messages)-1).Draw(t, "legacy-parent")]
+		if len(parent.Nested) > 0 && rapid.Bool().Draw(t, "legacy-deeper") {
+			parent = parent.Nested[0]
+		}
+		parent.Nested = append(parent.Nested, &protogen.Message{
+			ID:              parent.ID + "-legacyset",
+			Name:            "VerifLegacySet",
+			Comment:         "VerifLegacySet message.",
+			Options:         []protogen.Option{{Name: "message_set_wire_format", Value: "true"}},
+			ExtensionRanges: []protogen.Range{{Start: 4, End: 1000}},
+		})
+	}
+}
+
+func hasNestedMessageSet(vs []fileView) bool {
+	var rec func(ms []*descriptorpb.DescriptorProto, depth int) bool
+	rec = func(ms []*descriptorpb.DescriptorProto, depth int) bool {
+		for _, m := range ms {
+			if depth > 0 && m.GetOptions().GetMessageSetWireFormat() {
+				return true
+			}
+			if rec(m.NestedType, depth+1) {
+				return true
+			}
+		}
+		return false
+	}
+	for _, v := range vs {
+		if rec(v.FDP.MessageType, 0) {
+			return true
+		}
+	}
+	return false
 }
 
 // hasCustomOption reports whether any descriptor of the views carries an extension in an options message.
@@ -318,7 +366,7 @@ func runEncAPI(ctx context.Context, t fataler, r *evid.Recorder, c *EncCase, tmp
 				kept = append(kept, v.FDP)
 			}
 		}
-		if _, err := (protodesc.FileOptions{AllowUnresolvable: true}).NewFiles(&descriptorpb.FileDescriptorSet{File: kept}); err != nil {
+		if _, err := (protodesc.FileOptions{AllowUnresolvable: true}).NewFiles(&descriptorpb.FileDescriptorSet{File: withoutMessageSet(kept)}); err != nil {
 			r.Excluded("exclude-imports:remaining-files-not-linkable-without-the-omitted-imports")
 			return
 		}
@@ -451,6 +499,23 @@ func runEncAPI(ctx context.Context, t fataler, r *evid.Recorder, c *EncCase, tmp
 		got = viewsOfImage(img2)
 	}
 	classifyEnc(r, c, res, want)
+	if len(c.Unknown) == 0 {
+		// writing and reading must not modify the in-memory image that was written
+		now, err := bufimage.ImageToProtoImage(img)
+		if err != nil {
+			t.Fatalf("harness: %v", err)
+		}
+		nowViews, err := viewsOfProtoImage(now)
+		if err != nil {
+			t.Fatalf("harness: %v", err)
+		}
+		for i, v := range nowViews {
+			if !proto.Equal(v.FDP, want[i].FDP) {
+				r.Fail(t, key+"source-image-mutated", fmt.Sprintf("after writing and reading, the in-memory image that was written has changed: %s", firstDiff(want[i].FDP.ProtoReflect(), v.FDP.ProtoReflect(), v.Path)), c)
+				return
+			}
+		}
+	}
 	if what, m := compareViews(res, want, got, o); what != "" {
 		if what == "harness" {
 			t.Fatalf("harness: %s", m)
@@ -504,6 +569,9 @@ func classifyEnc(r *evid.Recorder, c *EncCase, res *refResolver, want []fileView
 	}
 	if nNoSyn > 0 {
 		r.Class(c.Kind + ":has-syntax-unspecified")
+	}
+	if hasNestedMessageSet(want) {
+		r.Class(c.Kind + ":has-nested-message-set-option")
 	}
 	if nUnused > 0 {
 		r.Class(c.Kind + ":has-unused-dependency")
